@@ -59,7 +59,7 @@ def coverage(ctx, merged):
          'non-trivial = program whose result is non-empty somewhere and differs between at least two databases',
     programs=s.get('programs', 0), compiles=s.get('compiles', 0), distinct_outcomes=len(merged['keys'].get('outcomes', ())),
     families={k[7:]: v for k, v in s.items() if k.startswith('family_')}, reference_model_unsupported=s.get('unsupported', 0),
-    bounds=dict(body_literals=3 if ctx.thorough else 2, db_rows_per_table=2, values=[1, 2]), cap_hit=False)
+    bounds=dict(body_literals=3 if ctx.thorough else 2, db_rows_per_table='2 (thorough: 3 for the CONS/DISJ/EXPR/FUNC/INJ families)', values=[1, 2]), cap_hit=False)
 
 
 def replay(ctx, case):
